@@ -5,6 +5,8 @@ CHECKS = {
     'C01': ('vlib.chk_sat', 'C01'), 'C02': ('vlib.chk_sat', 'C02'), 'C03': ('vlib.chk_sat', 'C03'),
     'C04': ('vlib.chk_incr', 'C04'),
     'C05': ('vlib.chk_conf', 'C05'),
+    'C06': ('vlib.chk_cores', 'C06'), 'C07': ('vlib.chk_cores', 'C07'),
+    'C08': ('vlib.chk_itp', 'C08'), 'C09': ('vlib.chk_itp', 'C09'),
     'C15': ('vlib.chk_rat', 'C15'),
     'C16': ('vlib.chk_lit', 'C16'),
     'C29': ('vlib.chk_misc', 'C29'), 'C30': ('vlib.chk_misc', 'C30'),
